@@ -28,7 +28,7 @@ EXPLANATION = ('Shape rules decided by symbolic execution of the link-manipulati
                'on the link fields, slot-count accounting, single-traversal index assignment ordered between the substitution and '
                'positioning runs, loader rejection of list mutators after indexing, and the real-glyph clamp.  Position '
                'finiteness and data-dependent glyph ids are not decided.')
-FLOORS = {'LINKSYM': 6, 'NEWSLOTCLEAN': 3, 'MUTATORS': 4, 'GROWTH': 9, 'INDEX': 4, 'NOMUTPOS': 4, 'GIDCLAMP': 1}
+FLOORS = {'LINKSYM': 6, 'NEWSLOTCLEAN': 3, 'MUTATORS': 4, 'GROWTH': 9, 'INDEX': 4, 'NOMUTPOS': 4, 'GIDCLAMP': 2}
 
 STREAM_MUTATORS = {
     'graphite2::Segment::appendSlot': 'appends one slot per character',
@@ -419,6 +419,52 @@ def nomutpos(run, vm):
         run.violated('NOMUTPOS', 'pass index -> type', sg.where(), 'Silf::readGraphite no longer types passes [m_pPass, ...) as POSITIONING/JUSTIFICATION: %s' % got)
 
 
+def classbound(run, fx):
+    """GIDCLAMP's other half: "on fonts whose substitution classes name only real glyphs every gid is below n_glyphs" needs an output class
+    lookup to answer only from INSIDE the class.  Silf::getClassGlyph(cid, index) is interpreted (rules/ordint.py) on a class map with two
+    linear classes (sizes 2 and 3) followed by a lookup class, every cid, every index 0..7, each cell of the class data carrying its own
+    position: a non-zero answer for a linear class must come from a cell of that class."""
+    from . import ordint as O
+    fn = fx.one('graphite2::Silf::getClassGlyph')
+    rec = fx.record('graphite2::Silf')
+    P = 'graphite2::Silf::'
+    offs = [0, 2, 5, 13]                    # two linear classes, one lookup class of 4 header words + 2 pairs
+    ndata = 13
+    n = 0
+    for cid in range(0, 3):             # cid < m_nClass is the bytecode loader's obligation (C01 VALIDATOR/OPERANDCHECK: valid_upto(_max.classes, ..))
+        for index in range(0, 8):
+            silf = O.Rec()
+            for f in rec['fields']:
+                silf[P + f['n']] = None
+            data = O.Vec([1000 + k for k in range(ndata)])
+            # the lookup class: header (4 words) then (glyph, index) pairs
+            data.items[9 + 1] = 0
+            data.items[11 + 1] = 1
+            silf[P + 'm_classOffsets'] = O.It(O.Vec(list(offs)), 0)
+            silf[P + 'm_classData'] = O.It(data, 0)
+            silf[P + 'm_nClass'] = 3
+            silf[P + 'm_nLinear'] = 2
+            it = O.Interp(fx)
+            it.MAX_STEPS = 2000
+            try:
+                r = it.call(fn, silf, [cid, index])
+            except O.Violation as v:
+                return run.violated('GIDCLAMP', 'getClassGlyph answers from inside the class', fn.where(),
+                                    'class %d, index %d: %s (%s)' % (cid, index, v.what, v.loc))
+            n += 1
+            if cid < 2 and isinstance(r, int) and r != 0:
+                cell = r - 1000
+                if not (offs[cid] <= cell < offs[cid + 1]) or cell != offs[cid] + index:
+                    return run.violated('GIDCLAMP', 'getClassGlyph answers from inside the class', fn.where(),
+                                        'linear class %d (cells %d..%d of the class data), index %d: the answer is taken from cell %d -- outside the class; the slot gets whatever '
+                                        'word follows (another class\'s glyph or a lookup header count), which need not be a glyph of the font'
+                                        % (cid, offs[cid], offs[cid + 1] - 1, index, cell))
+            if cid < 2 and index < offs[cid + 1] - offs[cid] and r != 1000 + offs[cid] + index:
+                return run.violated('GIDCLAMP', 'getClassGlyph answers from inside the class', fn.where(),
+                                    'linear class %d, index %d: expected the class member in cell %d, got %r' % (cid, index, offs[cid] + index, r))
+    run.held('GIDCLAMP', 'getClassGlyph answers from inside the class', fn.where(), '%d abstract executions (cid 0..2 x index 0..7)' % n)
+
+
 def gidclamp(run, fx):
     sg = fx.one('graphite2::Slot::setGlyph')
     asg = [e for _, e in sg.elements() if e['k'] == 'BinaryOperator' and e['op'] == '=' and sg.render(sg.N(e['c'][0])) == 'this->m_realglyphid'
@@ -467,6 +513,10 @@ def run(run):
     width.no_narrow(run, fx, 'INDEX', [('Slot::index', 'graphite2::Slot::index'), 'graphite2::Segment::m_numGlyphs'])
     nomutpos(run, vm)
     gidclamp(run, fx)
+    try:
+        classbound(run, fx)
+    except AnalysisBroken as ex:
+        run.broken('GIDCLAMP', 'getClassGlyph answers from inside the class', str(ex))
     run.assume('pre-state of each mutator is a well-formed stream (the rules are the preservation step of an induction; the base case is '
                'appendSlot on the empty segment)')
     run.assume('allocation failure is outside the quantifier')
